@@ -412,6 +412,7 @@ pub fn ctor_seeds() -> Vec<(&'static str, String, Value)> {
     add("Name", "name-v1-1record-3langtags", json!({"lang_tag_record": [{"lang_tag": {"obj": "en"}}, {"lang_tag": {"obj": "de"}}, {"lang_tag": {"obj": "sr-Cyrl"}}],
         "name_record": [name_rec(0, 4, 0x8002, 256, "\u{0421}")]}));
     add("Meta", "meta-dlng-slng-other", json!({"data_maps": [{"tag": "dlng", "data": {"obj": {"ScriptLangTags": ["en-Latn", "zh-Hans"]}}}, {"tag": "slng", "data": {"obj": {"ScriptLangTags": ["Latn"]}}}, {"tag": "appl", "data": {"obj": {"Other": [1, 2, 3, 255, 0]}}}]}));
+    add("Meta", "meta-dlng-3tags-of-different-lengths", json!({"data_maps": [{"tag": "dlng", "data": {"obj": {"ScriptLangTags": ["en", "zh-Hans", "fr-Latn-x-abc", "de"]}}}, {"tag": "slng", "data": {"obj": {"ScriptLangTags": ["Cyrl", "sr-Cyrl-RS", "Latn"]}}}]}));
     add("Mvar", "mvar-3records-no-store", json!({"version": {"major": 1, "minor": 0}, "value_record_size": 8, "value_record_count": 3, "item_variation_store": {"obj": null},
         "value_records": [{"value_tag": "hasc", "delta_set_outer_index": 0, "delta_set_inner_index": 0}, {"value_tag": "hdsc", "delta_set_outer_index": 0, "delta_set_inner_index": 1}, {"value_tag": "xhgt", "delta_set_outer_index": 1, "delta_set_inner_index": 0}]}));
     add("Mvar", "mvar-2records-store", json!({"version": {"major": 1, "minor": 0}, "value_record_size": 8, "value_record_count": 2, "item_variation_store": {"obj": ivs(2, 3, 2)},
@@ -452,9 +453,112 @@ pub fn ctor_seeds() -> Vec<(&'static str, String, Value)> {
     }
     add("Sbix", "sbix-2strikes-3glyphs", json!({"flags": {"bits": 3}, "strikes": [{"obj": {"ppem": 20, "ppi": 72, "glyph_data_offsets": [20, 20, 20, 20]}}, {"obj": {"ppem": 40, "ppi": 144, "glyph_data_offsets": [20, 20, 20, 20]}}]}));
     add("Strike", "strike-0glyphs", json!({"ppem": 9, "ppi": 72, "glyph_data_offsets": [4]}));
+    add("Base", "base-1.1-minmax-all-coord-formats", base_full());
+    {
+        let mut b10 = base_full();
+        if let Some(m) = b10.as_object_mut() {
+            m.insert("item_var_store".into(), json!({"obj": null}));
+            m.insert("vert_axis".into(), json!({"obj": null}));
+        }
+        add("Base", "base-1.0-horiz-only-minmax", b10);
+    }
     add("DeltaSetIndexMap", "dsim-format0-2byte-entries", dsim(0x11, 5));
     add("DeltaSetIndexMap", "dsim-format1-4byte-entries", dsim(0x3F, 7));
     add("ItemVariationStore", "ivs-3axes-2regions", ivs(3, 2, 2));
+    v.extend(ift_with_cff_offsets());
+    v.extend(gpos_full_value_records());
+    v
+}
+
+/// BASE 1.1 with everything the corpus lacks: MinMax (default and per language
+/// system, with feature records), the three BaseCoord formats, base tag lists
+/// and script lists of different lengths on the two axes, an ItemVariationStore.
+fn base_full() -> Value {
+    use font_types::Tag;
+    use write_fonts::tables::base::*;
+    use write_fonts::tables::layout::DeviceOrVariationIndex;
+    let mm = |a: i16, feats: usize| {
+        MinMax::new(
+            Some(BaseCoord::format_1(a)),
+            Some(BaseCoord::format_2(a + 900, 7, 2)),
+            (0..feats)
+                .map(|i| FeatMinMaxRecord::new(Tag::new(&[b'f', b'e', b'a', b'0' + i as u8]), Some(MinMax::new(Some(BaseCoord::format_1(a - 1 - i as i16)), None, vec![])), if i % 2 == 0 { None } else { Some(MinMax::new(None, Some(BaseCoord::format_1(a + 1000)), vec![])) }))
+                .collect(),
+        )
+    };
+    let script = |k: i16, n_coords: usize, langs: usize, dflt_mm: bool| {
+        BaseScript::new(
+            if n_coords == 0 { None } else { Some(BaseValues::new(0, (0..n_coords).map(|i| if i == 1 { BaseCoord::format_3(k + 5, Some(DeviceOrVariationIndex::device(9, 12, &[1, -1, 0, 1]))) } else { BaseCoord::format_1(k * 10 + i as i16) }).collect())) },
+            if dflt_mm { Some(mm(-200 - k, 2)) } else { None },
+            (0..langs).map(|l| BaseLangSysRecord::new(Tag::new(&[b'L', b'N', b'G', b'0' + l as u8]), mm(-300 - l as i16 - k, l))).collect(),
+        )
+    };
+    let horiz = Axis::new(
+        Some(BaseTagList::new(vec![Tag::new(b"hang"), Tag::new(b"ideo"), Tag::new(b"romn")])),
+        BaseScriptList::new(vec![BaseScriptRecord::new(Tag::new(b"DFLT"), script(1, 3, 0, true)), BaseScriptRecord::new(Tag::new(b"cyrl"), script(2, 3, 2, false)), BaseScriptRecord::new(Tag::new(b"latn"), script(3, 3, 3, true))]),
+    );
+    let vert = Axis::new(None, BaseScriptList::new(vec![BaseScriptRecord::new(Tag::new(b"kana"), script(4, 0, 1, true))]));
+    let base = Base::new(Some(horiz), Some(vert));
+    let mut j = serde_json::to_value(&base).unwrap_or(Value::Null);
+    if let Some(m) = j.as_object_mut() {
+        m.insert("item_var_store".into(), json!({"obj": ivs(2, 2, 2)}));
+    }
+    j
+}
+
+/// GPOS subtables whose value records carry EVERY field (four values, four
+/// device / variation-index offsets), which no corpus font does.
+fn gpos_full_value_records() -> Vec<(&'static str, String, Value)> {
+    use font_types::GlyphId16;
+    use write_fonts::tables::gpos::*;
+    use write_fonts::tables::layout::{ClassDef, CoverageTable, DeviceOrVariationIndex};
+    let dev = |k: i8| DeviceOrVariationIndex::device(10, 13, &[k, -k, 0, 1]);
+    let full = |k: i16| {
+        ValueRecord::new()
+            .with_x_placement(k)
+            .with_y_placement(-k)
+            .with_x_advance(k * 3)
+            .with_y_advance(k + 7)
+            .with_x_placement_device(dev(1))
+            .with_y_placement_device(dev(2))
+            .with_x_advance_device(dev(3))
+            .with_y_advance_device(dev((k % 5) as i8))
+    };
+    let g = |i: u16| GlyphId16::new(i);
+    let cov = |n: u16| -> CoverageTable { (1..=n).map(g).collect() };
+    let mut v: Vec<(&'static str, String, Value)> = vec![];
+    let mut add = |t: &'static str, o: &str, j: Result<Value, serde_json::Error>| {
+        if let Ok(j) = j {
+            v.push((t, format!("ctor:{}", o), j));
+        }
+    };
+    add("SinglePosFormat1", "singlepos1-all-value-fields", serde_json::to_value(SinglePosFormat1::new(cov(3), full(5))));
+    add("SinglePosFormat2", "singlepos2-all-value-fields", serde_json::to_value(SinglePosFormat2::new(cov(3), vec![full(1), full(2), full(3)])));
+    let sets = (0..2i16).map(|i| PairSet::new((0..3u16).map(|j| PairValueRecord::new(g(20 + j), full(i * 10 + j as i16), full(-(j as i16)))).collect())).collect();
+    add("PairPosFormat1", "pairpos1-all-value-fields-both-records", serde_json::to_value(PairPosFormat1::new(cov(2), sets)));
+    let cd1: ClassDef = [(g(1), 1u16), (g(2), 2)].into_iter().collect();
+    let cd2: ClassDef = [(g(30), 1u16), (g(31), 1), (g(32), 2), (g(33), 3)].into_iter().collect();
+    // 3 class-1 classes x 4 class-2 classes: the two record arrays have different lengths
+    let c1 = (0..3i16).map(|i| Class1Record::new((0..4i16).map(|j| Class2Record::new(full(i * 4 + j), full(100 + i + j))).collect())).collect();
+    add("PairPosFormat2", "pairpos2-3x4-classes-all-value-fields-both-records", serde_json::to_value(PairPosFormat2::new(cov(2), cd1, cd2, c1)));
+    v
+}
+
+fn ift_with_cff_offsets() -> Vec<(&'static str, String, Value)> {
+    let f1 = |flags: u64, cff: Value, cff2: Value| json!({"applied_entries_bitmap": [2], "cff2_charstrings_offset": cff2, "cff_charstrings_offset": cff, "compatibility_id": [0, 0, 0, 1, 0, 0, 0, 2, 0, 0, 0, 3, 0, 0, 0, 4],
+        "feature_map": {"obj": null}, "field_flags": {"bits": flags}, "glyph_count": 7, "glyph_map": {"obj": {"first_mapped_glyph": 1}}, "max_entry_index": 2, "max_glyph_map_entry_index": 2, "patch_format": 3,
+        "uri_template": [65, 66, 67, 68, 69, 70, 201, 164], "uri_template_length": 8});
+    let f2 = |flags: u64, cff: Value, cff2: Value, ids: bool| json!({"cff2_charstrings_offset": cff2, "cff_charstrings_offset": cff, "compatibility_id": [0, 0, 0, 1, 0, 0, 0, 2, 0, 0, 0, 3, 0, 0, 0, 4], "default_patch_format": 3,
+        "entries": {"obj": {"entry_data": [0, 4, 0, 3, 4, 0, 4, 0, 4, 0, 3, 4, 0, 0, 97, 98, 99, 100, 101, 102, 103, 104, 105, 106]}}, "entry_count": 6,
+        "entry_id_string_data": if ids { json!({"obj": {"id_data": [97, 98, 99, 100, 101, 102, 103, 104, 105, 106]}}) } else { json!({"obj": null}) },
+        "field_flags": {"bits": flags}, "uri_template": [65, 66, 67, 68, 69, 70, 201, 164], "uri_template_length": 8});
+    let mut v = vec![];
+    for (flags, cff, cff2, what) in [(1u64, json!(0x1234), Value::Null, "cff"), (2, Value::Null, json!(0x0BCDEF01u32), "cff2"), (3, json!(7), json!(0xFFFFFFFFu32), "cff+cff2")] {
+        v.push(("PatchMapFormat1", format!("ctor:ift-format1-{}-offset", what), f1(flags, cff.clone(), cff2.clone())));
+        v.push(("PatchMapFormat2", format!("ctor:ift-format2-{}-offset", what), f2(flags, cff.clone(), cff2.clone(), flags == 2)));
+        v.push(("Ift", format!("ctor:ift-format1-{}-offset", what), json!({"Format1": f1(flags, cff.clone(), cff2.clone())})));
+        v.push(("Ift", format!("ctor:ift-format2-{}-offset", what), json!({"Format2": f2(flags, cff, cff2, flags != 2)})));
+    }
     v
 }
 
